@@ -121,7 +121,7 @@ func genC12(seed uint64, idx int, tier string) *Plan {
 	p := &MutatePlan{Zone: z}
 	p.Zone.Faults = nil
 	p.Zone.Poison = nil
-	p.Zone.OneHop = false
+	p.Zone.OneHop, p.Zone.Bulk = false, 0
 
 	if core.Chance(r, 1, 3) {
 		g := &zoneGen{r: r, ttls: []uint32{60}}
